@@ -64,8 +64,8 @@ class FactorColumnOp(BaseOp):
         """
         super().__init__(parameters)
         self.column_name = parameters['column_name']
-        self.factor_values = parameters.get('factor_values', None)
-        self.factor_names = parameters.get('factor_names', None)
+        self.factor_values = parameters.get('factor_values', [])
+        self.factor_names = parameters.get('factor_names', [])
 
     def do_op(self, dispatcher, df, name, sidecar=None):
         """ Create factor columns based on values in a specified column.
